@@ -93,7 +93,12 @@ def run_case(ctx, case_seed, kind, prefix):
                 rec.set_data(k, v)
             rec.add_metadata(r['metadata'])
             r['model'] = (model_data, fresh(r['metadata']))
-            cas.save_recording(rec)
+            try:
+                cas.save_recording(rec)
+            except Exception as ex:
+                ctx.violation('saving a recording whose keys and values the serializer handles raised %s on %s cassette' % (type(ex).__name__, kind),
+                              dict(witness, error=repr(ex)[:200]))
+                return
             ctx.count('recordings_saved')
         # saves that fail (the serializer cannot encode a value) are part of the history: such an id was never saved, and an
         # earlier successful save under the same id must survive a failed re-save
